@@ -49,6 +49,8 @@ type TxLoc struct {
 	Datums    []Rng
 	Redeemers []Rdm
 	Scripts   []Scr
+	// whether some script list / the datum list of the witness set is wrapped in the #6.258 set tag
+	ScriptsTagged, DatumsTagged bool
 }
 
 // Layout is everything located in one block encoding.
@@ -63,8 +65,19 @@ type Layout struct {
 	roles   map[*space.Node]string
 }
 
+// Pseudo block types used for stand-alone artefacts (c01): TxBase+txType is one
+// transaction in the era's stand-alone wire form, HeaderBase+blockType one block header.
+const (
+	TxBase     = 100
+	HeaderBase = 200
+)
+
 func familyOf(typ uint) string {
 	switch {
+	case typ >= HeaderBase:
+		return "header:" + familyOf(typ-HeaderBase)
+	case typ >= TxBase:
+		return "tx:" + familyOf(typ-TxBase+1)
 	case typ == 0:
 		return "ebb"
 	case typ == 1:
@@ -80,6 +93,18 @@ func familyOf(typ uint) string {
 // Locate walks the tree of one block of block type typ.
 func Locate(root *space.Node, typ uint) (*Layout, error) {
 	l := &Layout{Family: familyOf(typ), roles: map[*space.Node]string{}}
+	if typ >= HeaderBase {
+		l.Block, l.Header, l.HeaderN = rng(root), rng(root), root
+		l.roles[root] = "header"
+		return l, nil
+	}
+	if typ >= TxBase {
+		l.Block = rng(root)
+		if err := l.standaloneTx(root, typ-TxBase); err != nil {
+			return nil, err
+		}
+		return l, nil
+	}
 	if root.Major != 4 {
 		return nil, fmt.Errorf("block is not an array")
 	}
@@ -211,6 +236,7 @@ func (l *Layout) witnessSet(t *TxLoc, w *space.Node) error {
 		switch k.Arg {
 		case 4: // [* plutus_data] / set
 			arr := l.unwrapSet(v, "datums-set-tag")
+			t.DatumsTagged = t.DatumsTagged || arr != v
 			if arr.Major != 4 {
 				return fmt.Errorf("plutus data is not an array")
 			}
@@ -250,6 +276,7 @@ func (l *Layout) witnessSet(t *TxLoc, w *space.Node) error {
 		case 1, 3, 6, 7, 8:
 			lang := map[uint64]byte{1: 0, 3: 1, 6: 2, 7: 3, 8: 4}[k.Arg]
 			arr := l.unwrapSet(v, "scripts-set-tag")
+			t.ScriptsTagged = t.ScriptsTagged || arr != v
 			if arr.Major != 4 {
 				return fmt.Errorf("script list is not an array")
 			}
@@ -348,6 +375,50 @@ func (l *Layout) dijkstra(root *space.Node) error {
 			l.Txs[i].Meta = &ar
 			l.Txs[i].MetaN = a
 		}
+	}
+	return nil
+}
+
+// standaloneTx: Byron [tx, witnesses]; Shelley…Mary [body, wits, aux/null]; Alonzo…Conway
+// [body, wits, is_valid, aux/null]; Dijkstra [body, wits, aux/null] or with is_valid.
+func (l *Layout) standaloneTx(root *space.Node, txType uint) error {
+	if root.Major != 4 {
+		return fmt.Errorf("transaction is not an array")
+	}
+	if txType == 0 {
+		// reuse the Byron pair walk through a one-pair payload
+		if len(root.Items) != 2 {
+			return fmt.Errorf("byron tx pair shape")
+		}
+		pay := &space.Node{Major: 4, Items: []*space.Node{root}}
+		fake := &space.Node{Major: 4, Items: []*space.Node{{Major: 4}, {Major: 4, Items: []*space.Node{pay, {Major: 4}, {Major: 4}, {Major: 4}}}, {Major: 4}}}
+		if err := l.byron(fake); err != nil {
+			return err
+		}
+		for _, n := range []*space.Node{fake, fake.Items[1], fake.Items[2], pay, fake.Items[1].Items[1], fake.Items[1].Items[2], fake.Items[1].Items[3]} {
+			delete(l.roles, n)
+		}
+		return nil
+	}
+	if len(root.Items) < 3 || len(root.Items) > 4 {
+		return fmt.Errorf("transaction with %d elements", len(root.Items))
+	}
+	l.roles[root] = "tx-array"
+	l.Txs = make([]TxLoc, 1)
+	r := rng(root)
+	l.Txs[0].Tx = &r
+	if err := l.txBody(&l.Txs[0], root.Items[0]); err != nil {
+		return err
+	}
+	if err := l.witnessSet(&l.Txs[0], root.Items[1]); err != nil {
+		return err
+	}
+	a := root.Items[len(root.Items)-1]
+	l.roles[a] = "aux-value"
+	if !(a.Major == 7 && a.Arg == 22) {
+		ar := rng(a)
+		l.Txs[0].Meta = &ar
+		l.Txs[0].MetaN = a
 	}
 	return nil
 }
